@@ -29,6 +29,7 @@ from vlib import c09_gen as G
 
 K_EXHAUST = "cabi:amd64:split-aggregate-after-register-exhaustion"
 K_NESTED = "cabi:amd64:nested-struct-padding-split"
+K_CAPTURE = "callback:capturing-closure-as-c-function-pointer"
 OPAQUE = os.path.join(VERIF, "harness", "e2e", "overlay", "zz_verif_opaque.go.txt")
 
 CORPUS_SIGS = [  # (kind, shape, pre, post)  — DESIGN.md §8 #22 and the nested-padding witnesses, always run first
@@ -79,10 +80,11 @@ def gen_case_sig(rng, t, kind, force=None):
 def run(ctx, args):
     quick = ctx.tier == "quick"
     rng = ctx.rng
-    n_cls = 1500 if quick else 20000          # shapes classified in-process
-    n_sig = 600 if quick else 6000            # signatures rewritten in-process
-    n_e2e_shapes = 150 if quick else 1200     # shapes executed end to end
-    per_prog = 520 if quick else 600          # cases per generated program
+    scale = float(os.environ.get("VERIF_C09_SCALE", "1") or "1")   # test hook: shrink/grow the generated volumes
+    n_cls = int((1500 if quick else 20000) * scale)          # shapes classified in-process
+    n_sig = int((600 if quick else 6000) * scale)            # signatures rewritten in-process
+    n_e2e_shapes = int((150 if quick else 1200) * scale)     # shapes executed end to end
+    per_prog = 800 if quick else 600          # cases per generated program
     stats = {}
     st = lean_check(ctx, ["LlgoVerif.Props.C09"], ["LlgoVerif/Props/C09.lean"],
                     extra_files=["LlgoVerif/Model/CAbi.lean", "LlgoVerif/Spec/SysV.lean", "LlgoVerif/Lemmas/CAbi.lean"],
@@ -156,6 +158,7 @@ def run(ctx, args):
     mism_cur, mism_fix = [], []
     shape_info = {}
     n_unsound = 0
+    n_unsound_natural = 0
     kinds_hist = {}
     for i, c in enumerate(codes):
         natural = specl[i].endswith("natural=1")
@@ -171,6 +174,8 @@ def run(ctx, args):
         if not sound:
             n_unsound += 1
             if natural:
+                n_unsound_natural += 1
+            if natural and n_unsound_natural <= 3:     # a few concrete witnesses are enough; the count is in the evidence
                 ctx.report("cabi:amd64:classify:" + c, "internal/cabi classifies %s as '%s' (result: '%s'): not the psABI register image" %
                            (c, kind_of(real[2 * i]), kind_of(real[2 * i + 1])),
                            {"shape": c, "real": real[2 * i], "real_ret": real[2 * i + 1], "psabi": specl[i], "model": model[2 * i]})
@@ -248,6 +253,10 @@ def run(ctx, args):
             cs = G.Case(len(cases), kind, si, t, pre, post, rng, closure=(rng.random() < 0.4))
             pos_cov.add((len(pre) + len(post), len(pre)))
             cases.append(cs)
+    # a Go func literal that CAPTURES a variable, handed to C as a callback (a few per run; they may kill the process)
+    for j in range(3):
+        t = run_shapes[(j * 11) % len(run_shapes)]
+        cases.append(G.Case(len(cases), "cbi", (j * 11) % len(run_shapes), t, ["w"] if j else [], [], rng, capture=True))
     # model predictions for every case
     place_lines = ["place%s %s" % (P, " ".join(c.sig_words())) for c in cases]
     placed, _, _ = run_lines([modeld], place_lines)
@@ -282,9 +291,17 @@ def run(ctx, args):
     # judge every failing case; compare observation with the model's prediction
     by_idx = {c.idx: c for c in cases}
     n_known, n_pred_mism = 0, []
-    classes = {"exhaustion": 0, "nested": 0, "other": 0}
+    classes = {"exhaustion": 0, "nested": 0, "capture": 0, "other": 0}
     for c in cases:
         p = pred[c.idx]
+        if c.capture:
+            # closures are outside the placement model: judged on their own
+            if c.idx in failures and pred[c.idx].get("eq") == "1" and shape_info[G.code(c.t)]["sound"]:
+                classes["capture"] += 1
+                rep = dict(c.describe())
+                rep["observed"] = failures[c.idx]
+                ctx.report(K_CAPTURE, "a Go func literal with a captured variable passed to a C function as callback: " + c.describe()["sig"], rep)
+            continue
         sc = G.code(c.t)
         shape_bad = not shape_info[sc]["sound"]
         predicted_bad = (p.get("eq") == "0") or shape_bad
@@ -301,9 +318,10 @@ def run(ctx, args):
                 ctx.report(K_EXHAUST, "aggregate split between register and stack: " + c.describe()["sig"], rep)
             else:
                 classes["other"] += 1
-                ctx.report("cabi:amd64:e2e:%s:%s" % (c.kind, c.describe()["sig"].replace(" ", "_")),
-                           "value corrupted across the Go/C boundary on a signature whose aggregates all fit in registers: %s (%s)" %
-                           (c.describe()["sig"], c.kind), rep)
+                if classes["other"] <= 3:
+                    ctx.report("cabi:amd64:e2e:%s:%s" % (c.kind, c.describe()["sig"].replace(" ", "_")),
+                               "value corrupted across the Go/C boundary on a signature whose aggregates all fit in registers: %s (%s)" %
+                               (c.describe()["sig"], c.kind), rep)
         if observed_bad != predicted_bad:
             n_pred_mism.append({"case": c.describe(), "observed_bad": observed_bad, "model": placed[c.idx]})
     e2e_stats["failure_classes"] = classes
@@ -312,7 +330,7 @@ def run(ctx, args):
         ctx.log("placement model vs execution: %d disagreements, first %s" % (len(n_pred_mism), n_pred_mism[0]))
 
     # compile-crash class: a shape whose coerce type is the zero-width integer
-    crash_stats = replay_crash_shapes(ctx, crash_shapes[:2] if quick else crash_shapes[:6], shape_info, rng)
+    crash_stats = replay_crash_shapes(ctx, crash_shapes[:1] if quick else crash_shapes[:6], shape_info, rng)
     e2e_stats["uncompilable_shapes"] = crash_stats
 
     # C strings end to end
@@ -355,10 +373,13 @@ def run(ctx, args):
                         "natural layout only (no packed structs, bit-fields, long double, vectors, zero-length arrays, unions)",
                         "varargs C functions are not generated"]
     evaluations = len(lines) + len(sig_lines) + len(e2e_stats["runs"]) * 0 + sum(r["cases"] for r in e2e_stats["runs"]) + cstr_stats.get("cases", 0)
-    stats.update({"shapes_classified": len(codes), "kinds": kinds_hist, "unsound_on_real_code": n_unsound,
+    stats.update({"shapes_classified": len(codes), "kinds": kinds_hist, "unsound_on_real_code": n_unsound, "unsound_on_naturally_laid_out_shapes": n_unsound_natural,
                   "natural_shapes": sum(1 for c in codes if shape_info[c]["natural"]),
                   "size_le16": sum(1 for t in shapes if G.layout(t)[0] <= 16), "nested": sum(1 for t in shapes if not G.is_flat(t)),
                   "signatures": len(sig_lines)})
+    import resource
+    ru = resource.getrusage(resource.RUSAGE_CHILDREN)
+    stats["cpu_seconds_children"] = round(ru.ru_utime + ru.ru_stime, 1)   # load-independent cost of the run
     return ctx.finish("proof", {"evaluations": evaluations, "distinct_nontrivial": len(nontrivial),
                                "rule": "one evaluation = one classification / signature protocol line, or one executed call case at one optimisation level; "
                                        "distinct by protocol line text (shape code + signature); non-trivial = longer than 8 characters",
